@@ -150,9 +150,12 @@ class MessageSigner(object):
 
         # Calculate the specific public key used to sign this message.
         y_parity = recid & 1
-        q = self._generator.possible_public_pairs_for_signature(
+        pairs = self._generator.possible_public_pairs_for_signature(
             msg_hash, (r, s), y_parity=y_parity
-        )[0]
+        )
+        if not pairs:
+            raise EncodingError("no public key can be recovered from this signature")
+        q = pairs[0]
         if recid > 1:
             order = self._generator.order()
             q = self._generator.Point(q[0] + order, q[1])
@@ -187,7 +190,8 @@ class MessageSigner(object):
                 self.hash_for_signing(message) if message is not None else (msg_hash or 0)
             )
             pair, is_compressed = self.pair_for_message_hash(signature, resolved_hash)
-        except EncodingError:
+        except (EncodingError, ValueError):
+            # ValueError covers malformed base64 (binascii.Error) and points that are not on the curve
             return False
         return self.pair_matches_key(pair, key, is_compressed)
 
